@@ -258,6 +258,10 @@ def sheet_cells(i):
     cells['A1'] = {'form': 'n', 'v': 100 + i}
     cells['B1'] = {'form': 's', 'v': 'name%d' % i}
     cells['C1'] = {'form': 'f', 'f': 'A1*2', 'ct': 'n', 'cv': 2 * (100 + i)}
+    # the same text with an unqualified multi-cell range on every sheet (no
+    # other formula names that range)
+    cells['A2'] = {'form': 'n', 'v': 7 + i}
+    cells['D1'] = {'form': 'f', 'f': 'SUM(A1:A2)'}
     return cells
 
 
@@ -290,7 +294,8 @@ def run_sheets(order, ignore_mask, ctx):
               repr(sorted(want_addrs)), tags + ['oracle:addresses'], inputs,
               nontriv)
     ctx.check(key0 + '/formulae', repr(sorted(model.formulae)),
-              repr(sorted(a for a in want_addrs if a.endswith('!C1'))),
+              repr(sorted(a for a in want_addrs
+                          if a.endswith('!C1') or a.endswith('!D1'))),
               tags + ['oracle:formulae-keys'], inputs, nontriv)
     for i, t in enumerate(titles):
         if t in ignored:
@@ -298,6 +303,11 @@ def run_sheets(order, ignore_mask, ctx):
         got = lib.eval_addr(model, '%s!C1' % t)
         ctx.check('%s/eval/%d' % (key0, i), got, lib.norm(2 * (100 + i)),
                   tags + ['oracle:evaluate'], inputs, nontriv)
+        got = lib.eval_addr(model, '%s!D1' % t)
+        ctx.check('%s/eval-range/%d' % (key0, i), got,
+                  lib.norm(100 + i + 7 + i),
+                  tags + ['oracle:evaluate', 'ref:unqualified-range'], inputs,
+                  nontriv)
 
 
 # ---- family: shared formulas ------------------------------------------------------
